@@ -18,32 +18,32 @@ var stubs = map[string]stubFn{}
 
 func init() {
 	for k, v := range map[string]stubFn{
-		"(*sync.Mutex).Lock":                       stubMutexLock,
-		"(*sync.Mutex).Unlock":                     stubMutexUnlock,
-		"(*sync.Pool).Get":                         stubPoolGet,
-		"(*sync.Pool).Put":                         stubPoolPut,
-		"regexp.MustCompile":                       stubRegexpMustCompile,
-		"regexp.Compile":                           stubRegexpCompile,
-		"(*regexp.Regexp).MatchString":             stubRegexpMatchString,
-		"(*regexp.Regexp).ReplaceAllStringFunc":    stubRegexpReplaceAllStringFunc,
-		"(*regexp.Regexp).FindStringSubmatch":      stubRegexpFindStringSubmatch,
-		"strconv.Atoi":                             stubAtoi,
-		"strconv.ParseFloat":                       stubParseFloat,
-		"strconv.Quote":                            stubQuote,
-		"strconv.Itoa":                             stubItoa,
-		"encoding/json.Unmarshal":                  stubJSONUnmarshal,
-		"(encoding/json.Number).Float64":           stubNumberFloat64,
-		"(encoding/json.Number).String":            func(s *State, a []Value) Value { return a[0] },
-		"reflect.TypeOf":                           stubTypeOf,
-		"reflect.DeepEqual":                        stubDeepEqual,
-		"fmt.Sprintf":                              stubSprintf,
-		"fmt.Sprint":                               stubSprint,
-		"fmt.Errorf":                               stubErrorf,
-		"errors.New":                               stubErrorsNew,
-		"(sort.StringSlice).Sort":                  stubStringSliceSort,
-		"sort.Strings":                             stubStringSliceSort,
-		"strings.HasPrefix":                        stubHasPrefix,
-		"strings.Contains":                         stubContains,
+		"(*sync.Mutex).Lock":                    stubMutexLock,
+		"(*sync.Mutex).Unlock":                  stubMutexUnlock,
+		"(*sync.Pool).Get":                      stubPoolGet,
+		"(*sync.Pool).Put":                      stubPoolPut,
+		"regexp.MustCompile":                    stubRegexpMustCompile,
+		"regexp.Compile":                        stubRegexpCompile,
+		"(*regexp.Regexp).MatchString":          stubRegexpMatchString,
+		"(*regexp.Regexp).ReplaceAllStringFunc": stubRegexpReplaceAllStringFunc,
+		"(*regexp.Regexp).FindStringSubmatch":   stubRegexpFindStringSubmatch,
+		"strconv.Atoi":                          stubAtoi,
+		"strconv.ParseFloat":                    stubParseFloat,
+		"strconv.Quote":                         stubQuote,
+		"strconv.Itoa":                          stubItoa,
+		"encoding/json.Unmarshal":               stubJSONUnmarshal,
+		"(encoding/json.Number).Float64":        stubNumberFloat64,
+		"(encoding/json.Number).String":         func(s *State, a []Value) Value { return a[0] },
+		"reflect.TypeOf":                        stubTypeOf,
+		"reflect.DeepEqual":                     stubDeepEqual,
+		"fmt.Sprintf":                           stubSprintf,
+		"fmt.Sprint":                            stubSprint,
+		"fmt.Errorf":                            stubErrorf,
+		"errors.New":                            stubErrorsNew,
+		"(sort.StringSlice).Sort":               stubStringSliceSort,
+		"sort.Strings":                          stubStringSliceSort,
+		"strings.HasPrefix":                     stubHasPrefix,
+		"strings.Contains":                      stubContains,
 	} {
 		stubs[k] = v
 	}
@@ -268,7 +268,7 @@ func stubPoolGet1(s *State, a []Value) Value {
 			return takeNew()
 		}
 		v := free[len(free)-1]
-		s.pools[p.Obj] = free[:len(free)-1:len(free)-1]
+		s.pools[p.Obj] = free[: len(free)-1 : len(free)-1]
 		s.unpoison(v)
 		return v
 	case "fifo":
